@@ -200,7 +200,26 @@ func (s Slicer) Origins(v ssa.Value) []Origin {
 	return out
 }
 
+// what a buffer's String()/Bytes() returns is what was written into it: for a
+// buffer that is not a local variable (taken from a pool, handed in) the
+// writes are found at the method calls on the same value
+var bufferReaders = map[string]bool{"(*bytes.Buffer).String": true, "(*bytes.Buffer).Bytes": true, "(*strings.Builder).String": true}
+var bufferWriters = map[string]bool{
+	"(*bytes.Buffer).Write": true, "(*bytes.Buffer).WriteString": true, "(*bytes.Buffer).WriteByte": true, "(*bytes.Buffer).WriteRune": true,
+	"(*strings.Builder).Write": true, "(*strings.Builder).WriteString": true, "(*strings.Builder).WriteByte": true, "(*strings.Builder).WriteRune": true,
+}
+
 func (s Slicer) call(c *ssa.Call, idx int, walk func(ssa.Value), add func(Origin)) {
+	if !c.Call.IsInvoke() && len(c.Call.Args) > 0 && bufferReaders[Callee(c)] {
+		obj := c.Call.Args[0]
+		if _, local := obj.(*ssa.Alloc); !local && obj.Referrers() != nil {
+			for _, ref := range *obj.Referrers() {
+				if w, ok := ref.(*ssa.Call); ok && !w.Call.IsInvoke() && len(w.Call.Args) == 2 && w.Call.Args[0] == obj && bufferWriters[Callee(w)] {
+					walk(w.Call.Args[1])
+				}
+			}
+		}
+	}
 	if s.Through != nil {
 		if ops, ok := s.Through(c, idx); ok {
 			for _, o := range ops {
